@@ -1292,7 +1292,7 @@ func c05ReaderAtypTable(p *Prog, fc *FuncCtx) (map[int64]int64, bool) {
 		found := false
 		for _, cv := range fc.G.V {
 			x, y, op, okc := condParts(cv)
-			if !okc || y == nil || op != token.EQL || !isTypeByte(x) {
+			if !okc || y == nil || op != token.EQL || !isTypeByte(fc.Resolve(x)) {
 				continue
 			}
 			k, isK := constInt(info, y)
